@@ -49,7 +49,7 @@ def random_slices(algo, seed, count, nsym, extra='', nmin=6, nmax=7, wmax=20):
     out = []
     while len(out) < count:
         n = r.choice(list(range(nmin, nmax + 1)))
-        m = r.randint(n + 3, n + 6)
+        m = min(r.randint(n + 3, n + 6), n * (n - 1) // 2)
         es = sorted(r.sample(all_pairs(n), m))
         if components(n, es) != 1:
             continue
@@ -1000,10 +1000,8 @@ def C18(tier, seed):
     c8.append('what=spvecfp p=7 L=1 op=1 monitor=1')
     c8.append('what=spvecfp p=11 L=1 op=4 monitor=1')
     if tier == 'thorough':
-        c8 += ['what=spvecfp p=3 L=2 op=%d slim=40' % op for op in range(6)]
-        c8 += ['what=spvecfp p=2 L=2 op=%d monitor=1' % op for op in range(6)]
+        c8 += ['what=spvecfp p=2 L=2 op=%d monitor=1' % op for op in (0, 2, 3)]
         c8 += ['what=spvecfp p=7 L=1 op=%d monitor=1' % op for op in range(6)]
-        c12 += ['what=gcd lim=300']
     t0 = time.time()
     bins = build_many([('harness/h_int.cpp', 'symx', 'h_int8', ('-DBVW=8',)), ('harness/h_int.cpp', 'symx', 'h_int12', ('-DBVW=12',)),
                        ('harness/h_int.cpp', 'symx', 'h_int16', ('-DBVW=16',)), ('replay/r_int.cpp', 'real_nolib')])
@@ -1085,9 +1083,9 @@ def C18(tier, seed):
                 out.violation_lines.append('VIOLATION property=C18 replay=%s' % rp)
     bounds = {
         'functions_encoded': ['parmcb::fp<T>::ext_gcd', 'fp<T>::get_mult_inverse', 'parmcb::primes<T>::is_prime', 'parmcb::SpVecFP<P> (+, +=, * scalar, *=, dot, assignments, clear)'],
-        'bounds': 'T = symx::BV<W>: ext_gcd both operands symbolic at W=8 (|a|,|b|<=127) (thorough also W=12, |.|<=300); a symbolic at W=16 against '
+        'bounds': 'T = symx::BV<W>: ext_gcd both operands symbolic at W=8 (|a|,|b|<=127); a symbolic at W=16 against '
                   'moduli {1,2,3,5,7,11,13,17,97,257,...}; get_mult_inverse: symbolic p<=60 at W=8, fixed moduli at W=8/16; is_prime: every p in '
-                  '[2,2047] at W=12 and [2,4095] (thorough 32767) at W=16; SpVecFP<BV<8>>: p in {2,3,(5,7,11)}, vectors of <=1 (thorough 2) '
+                  '[2,2047] at W=12 and [2,4095] (thorough 32767) at W=16; SpVecFP<BV<8>>: p in {2,3,(5,7,11)}, vectors of <=1 (thorough: 2 for p=2) '
                   'symbolic terms over indices 0..L, scalars of any sign over the whole 8-bit range with signed-overflow monitoring',
         'outside_bounds': 'operands beyond the widths above (stand-in for built-in 32/64-bit and multiprecision types, which the replays exercise on '
                           'sampled values only); p with (p-1)^2 not representable in P (overflow inherent to built-in P)',
@@ -1276,34 +1274,40 @@ def tbb_cases(tier, seed):
     lmax = 4 if tier == 'quick' else 5
     exact = ['signed_tbb', 'fvs_tbb', 'iso_tbb']
     approx = ['approx_signed_tbb', 'approx_fvs_tbb', 'approx_iso_tbb']
-    graphs = [(4, g) for g in (iso_classes(4) if tier == 'quick' else all_labelled_graphs(4)) if dim(4, g) >= 1]
+    graphs = [(4, g) for g in iso_classes(4) if dim(4, g) >= 1]
     graphs += [(3, [(0, 1), (0, 2), (1, 2)]), (4, [(0, 1), (1, 2), (2, 3)]), (4, []), (0, []), (5, [(0, 1), (2, 3)])]
+    if tier == 'thorough':
+        graphs += [(5, g) for g in iso_classes(5, max_m=5, min_m=5) if dim(5, g) >= 1]
     r = rng(seed)
     for n, g in graphs:
         m = len(g)
         for algo in exact:
-            lim = 5 if tier == 'quick' else 6
+            lim = 5
             if 'iso' in algo:
                 lim -= 1
+            if n == 5 and 'iso' in algo:
+                continue
             if m <= lim:
                 cases.append('algo=%s n=%d edges=%s sym=all lmax=%d' % (algo, n, edges_str(g), lmax))
             else:
                 cases.append('algo=%s n=%d edges=%s sym=%s lmax=%d' % (algo, n, edges_str(g), ','.join(map(str, sorted(r.sample(range(m), 3)))), min(lmax, 4)))
         for algo in approx:
             for k in (1, 2):
-                lim = 4 if tier == 'quick' else 5
+                lim = 4
+                if n == 5:
+                    continue
                 s = 'all' if m <= lim else ','.join(map(str, sorted(r.sample(range(m), 3))))
                 cases.append('algo=%s k=%d n=%d edges=%s sym=%s lmax=%d' % (algo, k, n, edges_str(g), s, min(lmax, 4)))
-    fams = [('K33', 2)] if tier == 'quick' else [('K33', 2), ('K5', 2), ('grid3x3', 2), ('Q3', 2), ('petersen', 2), ('wheel5', 2)]
+    fams = [('K33', 2)] if tier == 'quick' else [('K33', 2), ('K5', 2), ('wheel5', 2), ('prism', 2)]
     for f, ns in fams:
         for algo in exact + (['approx_signed_tbb'] if tier == 'thorough' else []):
             cases += slice_cases(algo, f, ns, seed, variants=1, extra=' lmax=%d cb=%d%s' % (3, 1 if tier == 'quick' else 2, ' k=2' if algo.startswith('approx') else ''))
     if tier == 'thorough':
         for algo in exact:
-            cases += random_slices(algo, seed, 16 if 'iso' not in algo else 6, 2, extra=' lmax=3 cb=1')
+            cases += random_slices(algo, seed, 8 if 'iso' not in algo else 4, 2, extra=' lmax=3 cb=1')
     else:
         cases += random_slices('signed_tbb', seed, 6, 2, extra=' lmax=3 cb=0')
-    cb = 2 if tier == 'quick' else 3
+    cb = 2
     return [c if ' cb=' in c else c + ' cb=%d seed=%d' % (cb, seed) for c in cases]
 
 
@@ -1406,7 +1410,7 @@ def C03(tier, seed):
         'bounds': 'weights symbolic; every parallel_reduce over a range of length <= lmax (%d) evaluates ALL schedules (leaf partitions x run groupings x join '
                   'orders) side by side, longer ranges a reduced set of 6; every parallel_for is a symbolic choice among all chunkings/orders up to length 3, '
                   'else 5 patterns; graphs: 4-vertex graphs with a cycle (quick: one per isomorphism class, m<=5 fully symbolic), small forests/empty graph, '
-                  '2-symbolic slices of K33 and K5 (thorough: more families, K4 fully symbolic for signed/fvs)' % (4 if tier == 'quick' else 5),
+                  '2-symbolic slices of K33 (thorough: lmax 5, 5-vertex graphs with 5 edges for signed/fvs, slices of K5, wheel, prism, seeded random 6-7 vertex graphs)' % (4 if tier == 'quick' else 5),
         'schedules_per_reduce_max': sched_stats['max_alts'], 'parallel_reduce_calls': sched_stats['reduces'], 'reduce_schedules_evaluated': sched_stats['schedules'],
         'outside_bounds': 'the data-race clause (no engine here decides races of real TBB task graphs; real libtbb is only run in the sampled replays); '
                           'worker counts are not a separate parameter: every worker count induces a subset of the enumerated schedules',
@@ -1436,17 +1440,17 @@ def mpi_cases(tier, seed):
     cases = []
     algos = ['signed_mpi', 'fvs_mpi', 'fvs_tbb_mpi', 'iso_mpi', 'iso_tbb_mpi']
     Ps = [1, 2, 3] if tier == 'quick' else [1, 2, 3, 4, 5]
-    graphs = [(4, g) for g in (iso_classes(4) if tier == 'quick' else all_labelled_graphs(4)) if dim(4, g) >= 1]
+    graphs = [(4, g) for g in iso_classes(4) if dim(4, g) >= 1]
     graphs += [(3, [(0, 1), (0, 2), (1, 2)]), (4, [(0, 1), (1, 2), (2, 3)]), (4, []), (0, [])]
     r = rng(seed)
     for n, g in graphs:
         m = len(g)
         for algo in algos:
-            lim = (4 if tier == 'quick' else 5) - (1 if 'iso' in algo else 0)
+            lim = 4 - (1 if 'iso' in algo else 0)
             s = 'all' if m <= lim else ','.join(map(str, sorted(r.sample(range(m), 3 if 'iso' not in algo else 2))))
             for P in Ps:
-                layouts = ['same'] if P == 1 else (['same', 'rev'] + (['sym'] if (m <= 3 or (P == 2 and m <= 5 and algo == 'signed_mpi')) else []))
-                if tier == 'thorough' and P >= 2 and m >= 4 and algo == 'signed_mpi':
+                layouts = ['same'] if P == 1 else (['same', 'rev'] + (['sym'] if ((m <= 3 and P <= 3) or (P == 2 and m <= 5 and algo == 'signed_mpi')) else []))
+                if tier == 'thorough' and P in (2, 3) and m >= 4 and algo == 'signed_mpi':
                     layouts = ['same', 'rev', 'sym']
                 for lay in layouts:
                     cases.append('algo=%s P=%d layout=%s n=%d edges=%s sym=%s seed=%d' % (algo, P, lay, n, edges_str(g), s, seed))
@@ -1455,6 +1459,17 @@ def mpi_cases(tier, seed):
             for algo in algos:
                 for P in (2, 3, 5):
                     cases += slice_cases(algo, f, ns, seed, variants=1, extra=' P=%d layout=rev seed=%d' % (P, seed))
+        # denser 5-vertex graphs (signed-edge slicing with 3..4 signed edges per phase) and K7 with 4 ranks (vertex split with remainder 3)
+        for c in random_slices('signed_mpi', seed, 8, 2, nmin=5, nmax=5, wmax=9):
+            for P in (2, 3):
+                cases.append(c + ' P=%d layout=same seed=%d' % (P, seed))
+        n7, e7 = family('K7')
+        r7 = rng(seed + 77)
+        for v in range(3):
+            symidx = sorted(r7.sample(range(len(e7)), 2))
+            fixed = [r7.randint(1, 9) for _ in e7]
+            cases.append('algo=signed_mpi n=7 edges=%s sym=%s fixed=%s P=4 layout=same seed=%d fam=K7' % (
+                edges_str(norm_edges(e7)), ','.join(map(str, symidx)), ','.join(map(str, fixed)), seed))
     return cases
 
 
@@ -1831,11 +1846,11 @@ def rnd_cases(tier, seed):
                  (6, norm_edges(family('theta3_3')[1]) if False else [(0, 2), (2, 3), (3, 1), (0, 4), (4, 5), (5, 1)]),  # two parallel 3-paths
                  (5, norm_edges(family('theta2_3')[1]) if False else [(0, 2), (2, 1), (0, 3), (3, 4), (4, 1)]),          # theta(2,3)
                  (5, [(0, 1), (0, 2), (0, 3), (1, 3), (1, 4), (2, 4)])]                                                    # the 5-vertex 6-edge shape of DESIGN §4
-        reps = 2 if tier == 'quick' else 8
+        reps = 2 if tier == 'quick' else 5
         for n, g in named:
             m = len(g)
             for k in range(reps):
-                nsym = 2 if tier == 'quick' else 3
+                nsym = 2
                 if algo == 'iso' and m >= 6:
                     nsym -= 1
                 symidx = sorted(r.sample(range(m), nsym))
@@ -1848,8 +1863,8 @@ def rnd_cases(tier, seed):
                 if dim(5, g) < 1:
                     continue
                 m = len(g)
-                for k in range(3):
-                    symidx = sorted(r.sample(range(m), 2))
+                for k in range(2):
+                    symidx = sorted(r.sample(range(m), 2 if algo != 'iso' else 1))
                     fx = [r.choice(decs) for _ in range(m)]
                     cases.append('algo=%s n=5 edges=%s sym=%s fixedd=%s' % (algo, edges_str(g), ','.join(map(str, symidx)), ','.join(map(str, fx))))
     return cases
@@ -1961,7 +1976,7 @@ def C09(tier, seed):
         'functions_encoded': ['parmcb::mcb_sva_signed', 'mcb_sva_fvs_trees', 'mcb_sva_iso_trees (instantiated with symx::Rnd)'],
         'bounds': 'abstract rounding model in linear real arithmetic: x+y = x+y+eps, |eps| <= 2^-53 (x+y), one eps per distinct operand pair; weights in '
                   '[1e-3,1e3]; triangle, C4, triangle+pendant fully symbolic; K4-e, two parallel 3-paths, theta(2,3) and the 5-vertex 6-edge shape with 2 '
-                  '(thorough 3) symbolic weights and seeded one-decimal concrete weights; thorough: every 5-vertex graph with 5<=m<=6 (2 symbolic, 3 completions)',
+                  'symbolic weights (iso on 6-edge shapes: 1) and seeded one-decimal concrete weights; thorough: more completions and every 5-vertex graph with 5<=m<=6 (2 completions)',
         'undecided': undecided,
         'undecided_note': 'abstract counterexamples whose concretisation (nearest doubles, 1..3-decimal roundings) did not violate the property on the real '
                           'double build; they are neither reported nor claimed as proven (the QF_FP re-posing of DESIGN §6 was not built: z3 FP is out of reach here)',
